@@ -263,6 +263,9 @@ theorem NoRep.finishCycle {s : Sys} (h : NoRep s) (kept : List (Nat × Ring Cmd)
   rw [cycleProcess_noReporter _ _ _ h.has]
   exact ⟨⟨h.ready, h.has, h.spans, h.ads, h.lines⟩, rfl⟩
 
+theorem NoRep.withG {s : Sys} (h : NoRep s) (g : Ghost) : NoRep (s.withG g) :=
+  ⟨h.ready, h.has, h.spans, h.ads, h.lines⟩
+
 theorem NoRep.withCyc {s : Sys} (h : NoRep s) (c : Option CycState) : NoRep { s with cyc := c } :=
   ⟨h.ready, h.has, h.spans, h.ads, h.lines⟩
 
@@ -313,6 +316,7 @@ theorem NoRep.exitThread {s : Sys} (h : NoRep s) (t : Nat) : NoRep (s.exitThread
   · split
     · -- setRing changes rings only
       rename_i r _
+      refine NoRep.withG ?_ _
       refine ⟨?_, ?_, ?_, ?_, ?_⟩
       · unfold Sys.setRing; split
         · exact h2.ready
@@ -331,8 +335,8 @@ theorem NoRep.exitThread {s : Sys} (h : NoRep s) (t : Nat) : NoRep (s.exitThread
           · split <;> exact h2.spans
       · rw [Sys.setRing_adapters]; exact h2.ads
       · intro t2; rw [Sys.setRing_th]; exact h2.lines t2
-    · exact h2
-  · exact h2
+    · exact h2.withG _
+  · exact h2.withG _
 
 /-- what an observation may say when no reporter was ever installed -/
 def InertObs (op : Op) (o : Obs) : Prop :=
